@@ -63,3 +63,115 @@ claim('C15',
       'Trusts the environment model in props/C15.py (realpath contract; exists/isfile follow links; no races); CrossHair/z3; '
       'bounded shapes of resolved targets.',
       'DESIGN.md section 4 C15')
+claim('C02',
+      'Bounded-exhaustive symbolic execution of the real strict parser on 66 document families rendered from a written '
+      'structure (the skeleton is the specification): content holes range over all ASCII letters/digits, whitespace '
+      'holes over every str.isspace() character, continuation holes over every non-active character; the parsed tree '
+      '(kinds, names, delimiters, per-slot arguments or absent) must equal the structure, with and without unknown-macro '
+      'fallback. Right level: structure errors depend on combinations (optional argument followed by bracket text, token '
+      'argument followed by letters, star at end of input) that generated adjacency with solver-chosen characters reaches.',
+      'Trusts CrossHair/z3 and the expected structures written in props/C02.py; families and one-character holes bound the claim.',
+      'DESIGN.md section 4 C02')
+claim('C03',
+      'Bounded-exhaustive symbolic execution of latex_to_text on 40 core-sublanguage families with free content and '
+      'whitespace holes under the 4 whitespace policies x keep_braced_groups, compared with a reference renderer written '
+      'from the class documentation (replacement strings read from the text database at run time), plus the composition '
+      'law on pairs of self-contained blocks. Right level: the whitespace-ownership rules interact with token segmentation, '
+      'which only generated adjacency exercises; the solver picks the whitespace character (U+000B, U+0085, newline ...).',
+      'Trusts CrossHair/z3 and the reference in props/C03.py (my reading of the documentation, validated against the '
+      'unchanged tree); fill_text, list environments and non-text math modes are outside.',
+      'DESIGN.md section 4 C03')
+claim('C04',
+      'Bounded-exhaustive symbolic execution of UnicodeToLatexEncoder / PartialLatexToLatexEncoder against a 40-line '
+      'reference encoder written from the statement: every Unicode string up to the bound for generated rule lists '
+      '(dict, callables consuming 1-2 characters, per-rule protection, overlaps) under a cover of protection schemes x '
+      'policies x non_ascii_only, custom result class, the default table with one wildcard over all Unicode (BisectMap) '
+      'and the concatenation law, the partial encoder against "copy one token else fall through", and the module-level '
+      'cache over all option pairs. Right level: precedence/consumption/protection interact per position; U+007F and a '
+      'lone trailing escape character are the rare inputs.',
+      'Trusts CrossHair/z3, BisectMap (validated against the dict on import), the NFC stub (claim on the normalised string). '
+      'Regex rules are outside (CrossHair models re.match(s,pos) unfaithfully) and only run concretely.',
+      'DESIGN.md section 4 C04')
+claim('C07',
+      'Bounded-exhaustive symbolic execution of LatexNodes2Text.latex_to_text (tolerant parsing underneath) under a step '
+      'budget: every Unicode string up to the bound under 3 option sets, skeletons with free holes, and every macro and '
+      'environment name of both default databases (selected by a symbolic integer) in 14 / 11 uses each including empty '
+      'and missing arguments, end of input, and as single-token argument of other macros. Right level: the crashes sit in '
+      'replacement callables that index arguments the walker database may not provide; only every name in every argument '
+      'position finds them.',
+      'Trusts CrossHair/z3; step budget stands for bounded time; name lists read from /repo at run time.',
+      'DESIGN.md section 4 C07')
+claim('C08',
+      'Symbolic execution of encoder followed by latex_to_text(strict): one wildcard character ranging (by solver-driven '
+      'bisection) over the whole invertible alphabet next to pinned ASCII neighbours under 8 scheme / whitespace-policy '
+      'combinations, plus free printable-ASCII neighbours around a fixed symbol: the result must equal the input. Right '
+      'level: neighbour effects (control word followed by a letter or space, post-space eaten on the way back) exist only '
+      'in strings, and the table is too large to trust to samples.',
+      'Trusts CrossHair/z3, BisectMap, and the committed non-invertible list data/c08_noninvertible.json (constructed by the rule '
+      '"fails alone", not present in the repository).',
+      'DESIGN.md section 4 C08')
+claim('C09',
+      'Symbolic execution of call histories: document 1 (usually left unterminated, tolerant mode) then document 2 with '
+      'the same context object and warm process-wide parser caches, versus document 2 with fresh objects and emptied '
+      'caches; 12 skeleton pairs covering every standard argument type with free characters, free short strings, a '
+      'three-call history and the shared default context; the context snapshot must not change. Right level: leaked '
+      'state needs a specific first document (unbalanced verbatim braces) that the solver constructs.',
+      'Fresh interpreter approximated by fresh objects + cleared module caches in one process; histories of 2-3 calls.',
+      'DESIGN.md section 4 C09')
+claim('C10',
+      'Bounded-exhaustive symbolic execution of the strict parser with an independent recursion computing the expected '
+      'math/text mode of every node (math nodes, text-mode and math-mode arguments, math environments, inheritance), '
+      'displaytype and delimiter source slices; free strings, 21 nesting skeletons and 6 dollar-run documents. Right '
+      'level: a wrong hand-over shows only at a particular nesting or delimiter adjacency.',
+      'Trusts CrossHair/z3; the table of mode-switching macros/environments in props/C10.py; bounds as listed.',
+      'DESIGN.md section 4 C10')
+claim('C12',
+      'Symbolic execution of latex2text on 28 marker templates (comments, formulas, discarded constructs at every nesting '
+      'position) with free non-active holes, rendered under all 64 combinations of math_mode x keep_comments x whitespace '
+      'policy x fill_text; marker presence/absence, verbatim source slices and delimiters are asserted. Right level: '
+      'filters fail at particular positions (comment between macro and argument), not on ordinary documents.',
+      'Trusts CrossHair/z3; templates bound the claim; one known finding (comment between macro and argument).',
+      'DESIGN.md section 4 C12')
+claim('C13',
+      'Symbolic execution of the encoder with both built-in rule sets followed by a strict parse of the output: every '
+      'ordering of the LaTeX-active ASCII characters (+ representatives) up to the bound under all 5 schemes, and one '
+      'wildcard over all Unicode (both tables through BisectMap) alone and next to pinned neighbours; output must parse, '
+      'contain no comment/environment/input-opened math, be ASCII under replace/ignore/unihex, and fail raises ValueError '
+      'exactly for characters without rule outside the pass-through range. Right level: inertness is a property of '
+      'every character of two 1500-2200-entry tables next to every active character.',
+      'Trusts CrossHair/z3, BisectMap, NFC stub; one known finding (13 combining accents of the unicode-xml table).',
+      'DESIGN.md section 4 C13')
+claim('C16',
+      'Differential symbolic execution: each pylatexenc-2 entry point (get_latex_nodes with 7 stop/limit variants, '
+      'get_latex_expression, get_latex_braced_group, get_latex_environment, get_latex_maybe_optional_arg, get_token) '
+      'against the pylatexenc-3 parser object its documentation names, for every short string and every start position '
+      'plus skeletons; and every argument string over {*,[,{} up to length 3 through 6 macro and 4 environment spellings. '
+      'Right level: the glue code computes positions/lengths and translates spellings; slips show for particular start '
+      'positions or spellings (args_parser given as a string).',
+      'Trusts CrossHair/z3; no separate oracle (differential); documented differences excluded as listed.',
+      'DESIGN.md section 4 C16')
+claim('C17',
+      'Bounded-exhaustive symbolic execution of ParsingState.sub_context chains (79 chains of 1-2 steps over a menu of 15 '
+      'field changes from 3 start states; one condition per chain): the derived state and ParsingState(**get_fields()) '
+      'must produce the same token stream for every Unicode string up to the bound, and the parent fields must be '
+      'unchanged. Right level: stale cached delimiter tables show only for a particular order of changes and an input '
+      'containing the affected delimiter.',
+      'Trusts CrossHair/z3; menu and chain length bound the claim; token streams (not full parses) are compared.',
+      'DESIGN.md section 4 C17')
+claim('C18',
+      'Bounded-exhaustive symbolic execution of split_at_chars / split_at_node / parse_keyval_content on node lists parsed '
+      'from free strings and separator skeletons, for string, regex and callable separators and every keep_empty x '
+      'max_split combination, against a reference that splits only the text of character nodes (positions, source '
+      'slices, identity of non-character nodes, reproduction of the source), and key-value templates under the 4 '
+      'repeated-key policies. Right level: off-by-one positions and separators inside children show for particular '
+      'separator placements.',
+      'Trusts CrossHair/z3; statement-level oracle (upper bound on splits); keep_empty=False with max_split only sanity-checked.',
+      'DESIGN.md section 4 C18')
+claim('C19',
+      'Bounded-exhaustive symbolic execution of LatexNodesVisitor on trees from strict and tolerant parses of free strings '
+      'and 35 skeletons: a recording visitor must produce exactly the callback sequence, node identities and child-result '
+      'lists of an independent post-order walk, every object once. Right level: the input shapes the tree; None bodies and '
+      'absent arguments come from tolerant parses of odd inputs.',
+      'Trusts CrossHair/z3; trees limited to what the bounded inputs produce.',
+      'DESIGN.md section 4 C19')
+ENABLED = ['C01', 'C04', 'C05', 'C06', 'C11', 'C14', 'C15', 'C17', 'C20']
